@@ -10,7 +10,7 @@ PROPS = ["C11"]
 GEN_GROUPS = ["Tbs"]
 ASSERT_PREFIXES = ["assert", "should", "check", "maynotbe", "is", "spec", "verify"]
 
-ATOMS = ["print", "printf", "sleep", "eq", "asserteq", "assert", "assert2", "helper_assert", "helper_plain", "other", "new"]
+ATOMS = ["print", "printf", "sleep", "eq", "asserteq", "assert", "assert2", "helper_assert", "helper_plain", "other", "new", "assertcaps", "assertmay"]
 
 
 def atom_calls(atom, line, cls, pkg):
@@ -30,6 +30,11 @@ def atom_calls(atom, line, cls, pkg):
         return [{"Package": pkg, "NodeName": cls, "FunctionName": "assertTrue", "Parameters": [{"TypeValue": "ok"}], "Position": pos}]
     if atom == "hassert":
         return [{"Package": pkg, "NodeName": cls, "FunctionName": "assertHelperOk", "Parameters": [{"TypeValue": "ok"}], "Position": pos}]
+    if atom == "assertcaps":
+        # assertion names are recognised whatever their letter case: Verify..., mayNotBe... (ArchUnit)
+        return [{"Package": pkg, "NodeName": cls, "FunctionName": "VerifyState", "Parameters": [{"TypeValue": "x"}], "Position": pos}]
+    if atom == "assertmay":
+        return [{"Package": pkg, "NodeName": "rule", "FunctionName": "mayNotBeAccessedByAnyLayer", "Position": pos}]
     if atom == "assert2":
         return [{"Package": pkg, "NodeName": "", "FunctionName": "verifyAll", "Parameters": [{"TypeValue": "x"}, {"TypeValue": "y"}], "Position": pos}]
     if atom == "helper_assert":
@@ -122,6 +127,8 @@ ATOM_STMT = {
     "asserteq": ("expr", ("call", None, "assertEquals", [("lit", "1"), ("lit", "1")])),
     "assert": ("expr", ("call", None, "assertTrue", [("name", "ok")])),
     "assert2": ("expr", ("call", None, "verifyAll", [("name", "x"), ("name", "y")])),
+    "assertcaps": ("expr", ("call", None, "VerifyState", [("name", "x")])),
+    "assertmay": ("expr", ("call", ("name", "rule"), "mayNotBeAccessedByAnyLayer", [])),
     "hassert": ("expr", ("call", None, "assertHelperOk", [("name", "ok")])),
     "helper_assert": ("expr", ("call", None, "helpAssert", [])),
     "helper_plain": ("expr", ("call", None, "helpPlain", [])),
@@ -229,7 +236,7 @@ def is_assert_name(n):
 
 
 ATOM_FN = {"print": "println", "printf": "printf", "sleep": "sleep", "eq": "compare", "asserteq": "assertEquals", "assert": "assertTrue",
-           "assert2": "verifyAll", "helper_assert": "helpAssert", "helper_plain": "helpPlain", "other": "run", "new": ""}
+           "assert2": "verifyAll", "assertcaps": "VerifyState", "assertmay": "mayNotBeAccessedByAnyLayer", "helper_assert": "helpAssert", "helper_plain": "helpPlain", "other": "run", "new": ""}
 
 
 def expected(classes):
@@ -252,7 +259,7 @@ def expected(classes):
                     exp.append(("SleepyTest", ac["path"], m["_lines"][str(i)]))
                 if a in ("eq", "asserteq"):
                     exp.append(("RedundantAssertionTest", ac["path"], None))
-            has_assert = any(a in ("assert", "asserteq", "assert2") for a in atoms) or \
+            has_assert = any(a in ("assert", "asserteq", "assert2", "assertcaps", "assertmay") for a in atoms) or \
                 any(a == "helper_assert" and "hassert" in ac["helpers"]["helpAssert"] for a in atoms)
             if atoms and not has_assert:
                 exp.append(("UnknownTest", ac["path"], None))
